@@ -359,6 +359,66 @@ func scenarios() []e3.Scenario {
 			},
 		})
 	}
+	// S6: active; Selected session; the peer drops the link (the reconnect loop builds and
+	// publishes the next generation and re-dials) while the application closes. After Close
+	// has returned there is no live generation: State() is NotConnected and every socket of
+	// the endpoint is closed, whichever generation Close found current.
+	// Two variants: Close while the loop still sleeps its first backoff, and Close after a clock
+	// tick let the backoff expire (the loop is publishing / dialing while Close runs).
+	for _, late := range []bool{false, true} {
+		late := late
+		var m *mon
+		var p2 *sim.Conn
+		var reselected bool
+		out = append(out, e3.Scenario{
+			Name: map[bool]string{false: "active-drop-vs-close", true: "active-drop-backoff-over-vs-close"}[late], Horizon: 40 * time.Second,
+			Setup: func(e *e3.Env) {
+				m, p2, reselected = &mon{}, nil, false
+				o := e2.Opts{Active: true, Conn: connOpts()}
+				e.W.NewConn(o)
+				e.W.C.AddConnStateChangeHandler(m.handler(e.W.C))
+				if err := e.W.Establish(o); err != nil {
+					panic(err)
+				}
+				m.prev = hsms.SelectedState
+				pc := e.W.Peer
+				e.Thread("1peer", func() { // ordered before the application thread: the link drops first
+					_ = pc.Close()
+					p2 = e.W.Net.WaitPeer(3 * time.Second) // the re-dial (backoff starts at 100 ms)
+					if p2 == nil {
+						return
+					}
+					_ = p2.SetReadDeadline(time.Now().Add(25 * time.Second))
+					f, ok := readFrame(p2)
+					if !ok || f.SType != peer.SSelectReq {
+						return
+					}
+					if _, err := p2.Write(peer.Ctrl(peer.SSelectRsp, f.Session, 0, 0, f.Sys).Bytes()); err != nil {
+						return
+					}
+					reselected = true
+					var b [1]byte
+					_, _ = p2.Read(b[:]) // until the library closes the socket (or the deadline)
+				})
+				e.Thread("2app", func() {
+					if late {
+						vsched.Tick() // the next timer (the loop's 100 ms backoff) lands before Close begins
+					}
+					_ = e.W.C.Close()
+					m.closedRet.Store(true)
+				})
+			},
+			Monitor: func(e *e3.Env) { m.edge(e) },
+			Finish: func(e *e3.Env) {
+				m.edge(e)
+				e.Note("redialed=%v reselected=%v", p2 != nil, reselected)
+				if p2 != nil && !p2.RemoteClosed() {
+					e.Violate("link-alive-after-close", "Close() has returned but the connection the reconnect loop dialed meanwhile is still open (peer answered its Select.req: %v): the endpoint is closed and a generation of it lives on", reselected)
+				}
+				m.final(e, "end")
+			},
+		})
+	}
 	return out
 }
 
@@ -371,6 +431,12 @@ func partSched(c *vfw.Ctx, t *testing.T) {
 		b := bound
 		if i >= 2 && b > 1 {
 			b = 1 // thorough: two departures on the select/close and select/deselect/T7 scenarios only
+		}
+		if sc.Name == "active-drop-backoff-over-vs-close" {
+			// Close pinning a generation the reconnect loop is just replacing needs two switches
+			// (Close reads cur | loop publishes | Close fences and waits | loop dials): bound 2 in
+			// both tiers
+			b = 2
 		}
 		st := e3.Explore(c, t, sc, b)
 		c.Add("e3_executions", int64(st.Execs))
